@@ -87,6 +87,18 @@ func GenC12(verifSeed uint64, run int) *Scenario {
 		alt["description"] = "independently built settings\nwith a description of their own"
 		l, _ := alt["contents"].([]any)
 		alt["contents"] = append(l, map[string]any{"src": "@SRC@src/dup/b/index.html", "dst": "/usr/share/alt/index.html"})
+		if g.Bool(0.2) {
+			// the independently built settings name a script that does not
+			// exist: their packagings fail part-way (while the others are
+			// running), which is when clean-up paths run
+			sc, _ := alt["scripts"].(map[string]any)
+			if sc == nil {
+				sc = map[string]any{}
+			}
+			sc["postinstall"] = "@SRC@scripts/verif-no-such-script.sh"
+			alt["scripts"] = sc
+			plan.AltFails = true
+		}
 		plan.AltConfig = RenderConfig(alt)
 	}
 	plan.RefAfter = g.Bool(0.5)
@@ -241,6 +253,13 @@ func RunC12(rt *Runtime, sc *Scenario) RunResult {
 			if err != nil {
 				res.Trouble = "reference setup: " + err.Error()
 				return false
+			}
+			if plan.AltFails && c.Config == 1 && !ok {
+				// (a format whose override block brings its own scripts still builds)
+				res.Counters["probe.client_fails_partway_by_construction"]++
+				res.Notes = res.Notes[:len(res.Notes)-len(ref.Notes)]
+				refs[k] = nil
+				continue
 			}
 			if contains(w.ExpectFail, c.Format) {
 				if ok {
